@@ -21,7 +21,7 @@ fn fold_steps(b: &syn::Block, fields: &[String]) -> (Vec<FoldStep>, Option<usize
     let mut will_map = None;
     let mut map_user = None;
     for (i, s) in b.stmts.iter().enumerate() {
-        let t = sm::tsc(s);
+        let t = sm::tsx(s);
         if t.contains("will_map_user(&range)") || t.contains("will_map_user_cfg(&range)") {
             will_map = Some(i);
         }
@@ -164,7 +164,7 @@ fn check_orders(cx: &mut Ctx, model: &AstModel, oref: &crate::rules::grammar_rul
         };
         // ExprJoinedStr has a bespoke override (shared location for the pieces); checked separately
         if name == "ExprJoinedStr" && is_override {
-            let t = sm::tsc(block);
+            let t = sm::tsx(block);
             if t == "{letstart=self.locate(node.range.start());letend=self.locate_only(node.range.end());letlocation=SourceRange::new(start,end);linear_locate_expr_joined_str(self,node,location)}" {
                 cx.ok("C13.O3", "fold_expr_joined_str: start located, end looked ahead, pieces share the location");
             } else {
@@ -317,7 +317,7 @@ fn locator_siblings(cx: &mut Ctx, loc: &Src) {
         cx.fail(rule, &format!("{}/LinearLookaheadLocator", rule), &loc.rel, &format!("LinearLookaheadLocator's will_map_user/map_user are {:?}", b));
     }
     // associated types agree
-    let t = sm::tsc(&loc.file);
+    let t = sm::tsx(&loc.file);
     if t.matches("typeTargetU=SourceRange;").count() == 3 && t.matches("typeUserContext=SourceLocation;").count() == 3 {
         cx.ok(rule, "all three locators map TextRange -> SourceRange with a SourceLocation context");
     } else {
@@ -326,7 +326,7 @@ fn locator_siblings(cx: &mut Ctx, loc: &Src) {
     // locate_only does not move the cursor: body has no assignment to self.state
     if let Ok(sc) = sm::load(&cx_repo(), "core/src/source_code.rs") {
         if let Some(m) = sc.method("LinearLocator", "locate_only") {
-            let t = sm::tsc(&m.block);
+            let t = sm::tsx(&m.block);
             if !t.contains("self.state=") && !t.contains("self.state.cursor=") {
                 cx.ok(rule, "locate_only leaves the locator state untouched");
             } else {
@@ -410,7 +410,7 @@ fn line_break_sets(cx: &mut Ctx) {
     // find_newline classification
     if let Ok(nl) = sm::load(&cx.repo, "vendored/src/source_location/newlines.rs") {
         if let Some(f) = nl.free_fns("find_newline").into_iter().next() {
-            let t = sm::tsc(&f.block);
+            let t = sm::tsx(&f.block);
             if t.contains("b'\\n'=>LineEnding::Lf,") && t.contains("b'\\r'ifbytes.get(position.saturating_add(1))==Some(&b'\\n')=>LineEnding::CrLf,") && t.contains("_=>LineEnding::Cr,") {
                 cx.ok(rule, "find_newline classifies LF, CR LF and CR");
             } else {
@@ -418,7 +418,7 @@ fn line_break_sets(cx: &mut Ctx) {
             }
         }
         // LineEnding lengths
-        let t = sm::tsc(&nl.file);
+        let t = sm::tsx(&nl.file);
         if t.contains("LineEnding::Lf=>\"\\n\",") && t.contains("LineEnding::CrLf=>\"\\r\\n\",") && t.contains("LineEnding::Cr=>\"\\r\",") {
             cx.ok(rule, "LineEnding::as_str: LF, CR LF, CR");
         } else {
@@ -427,7 +427,7 @@ fn line_break_sets(cx: &mut Ctx) {
     }
     // lexer
     if let Ok(lx) = sm::load(&cx.repo, "parser/src/lexer.rs") {
-        let t = sm::tsc(&lx.file);
+        let t = sm::tsx(&lx.file);
         let n1 = t.matches("'\\n'|'\\r'=>{lettok_start=self.get_pos();").count();
         let n2 = t.matches("Some('\\n'|'\\r')").count();
         if n1 == 1 && n2 >= 4 {
@@ -457,7 +457,7 @@ fn stale_state(cx: &mut Ctx) {
     let mut stale = vec![];
     for s in &m.block.stmts[sel + 1..] {
         // the debug assertion message may print the cursor; line facts must come from `state`
-        let t = sm::tsc(s);
+        let t = sm::tsx(s);
         for fact in ["self.state.is_ascii", "self.state.line_start", "self.state.line_number", "self.state.line_end"] {
             if t.contains(fact) {
                 stale.push(fact.to_string());
@@ -471,7 +471,7 @@ fn stale_state(cx: &mut Ctx) {
     }
     // locate(): debug_assert cursor <= offset; state replaced or cursor advanced
     if let Some(l) = sc.method("LinearLocator", "locate") {
-        let t = sm::tsc(&l.block);
+        let t = sm::tsx(&l.block);
         if t.contains("let(column,new_state)=self.locate_inner(offset);ifletSome(state)=new_state{self.state=state;}else{self.state.cursor=offset;}") {
             cx.ok(rule, "locate(): the state is replaced by the new line's state, or only the cursor advances");
         } else {
